@@ -16,6 +16,13 @@
      Q <id> upd <n> <col>   ; FDUMP (before) ; A a.. ; S cnt (i v)* ; AFTER + FDUMP (after) | FAIL rv
          -> A <id> <struct_ok before> <spike == S> <update_spike S|N> <same as after 0|1|-> <update S|N> <solves like after 0|1|-> <struct_ok after 0|1|->
      Q <id> row <n>         ; R row.. ; X x.. ; V v     -> A <id> <row . x == v>
+     Q <id> lu <n> <k>      ; FDUMP (after mpq_ILLfactor) ; n lines R v.. ; k lines FT a | x  /  BT c | y
+         -> A <id> N                                     (lu_factor refuses the pivot order rperm/cperm of the dump)
+          | A <id> S <repr_same_lu 0|1> <uc ur lc lr perms: 0|1 each> <walk on e_0,e_n-1 like the dump 0|1> <per solve: lu_factor result solves like the library>
+     Q <id> topo <n> <k>    ; FDUMP .. FDUMPEND ; k lines O idx..  (the order in which mpq_ILLfactor_ftran listed a result)
+         -> A <id> <per line: listed_order_ok (f_uc dump) order>
+     Q <id> lusing <n> <stage> ; SING nsing (singr singc)* ; FDUMP sing .. FDUMPEND ; n lines R v.. ; n lines X v.. | NOX
+         -> A <id> <check_sing_report 0|1|-> <pivot prefix S|N> <kernel of the prefix zero on singr x singc 0|1|->
    Everything that decides anything is extracted Coq code. *)
 open Model
 open Glue
@@ -201,6 +208,69 @@ let () =
              | _ -> "-") in
            let f7 = (match after with Some af -> bit (struct_ok af) | None -> "-") in
            Printf.printf "A %s %s %s %s %s %s %s %s\n" id (bit f1) (bit f2) (if r1 = None then "N" else "S") f4 (if r2 = None then "N" else "S") f6 f7
+         | "lu", [ n; k ] ->
+           (* replay of mpq_ILLfactor: the pivot order is read off the dump (rperm, cperm in rank order), the extracted lu_factor
+              runs on the input matrix with that order; its result must be the dump (normal form) and solve like the library *)
+           let n = int_of_string n and k = int_of_string k in
+           let dump = read_dump ic n in
+           let rows = List.init n (fun _ -> qlist (expect ic "R")) in
+           let nn = nat_of_int n in
+           let piv = if List.length dump.f_rperm = List.length dump.f_cperm then List.combine dump.f_rperm dump.f_cperm else [] in
+           let solves = List.init k (fun _ -> match next_tokens ic with
+             | Some ("FT" :: r) -> let (a, x) = split_bar r in (true, a, x)
+             | Some ("BT" :: r) -> let (c, y) = split_bar r in (false, c, y)
+             | _ -> failwith "FT/BT expected") in
+           (match lu_factor nn rows piv with
+            | None -> Printf.printf "A %s N\n" id
+            | Some r ->
+              let same = repr_same_lu r dump in
+              let d1 = lines_eqb r.f_uc dump.f_uc and d2 = lines_eqb r.f_ur dump.f_ur
+              and d3 = etas_eqb r.f_lc dump.f_lc and d4 = etas_eqb r.f_lr dump.f_lr
+              and d5 = natlist_eqb r.f_rperm dump.f_rperm && natlist_eqb r.f_cperm dump.f_cperm in
+              let idx = List.sort_uniq compare [ 0; n - 1 ] in
+              let walk = n = 0 || List.for_all (fun i -> let e = unitv nn (nat_of_int i) in
+                            veqb nn (ftran_dense r e) (ftran_dense dump e) && veqb nn (btran r e) (btran dump e)) idx in
+              let buf = Buffer.create 64 in
+              List.iter (fun (ft, a, x) ->
+                Buffer.add_string buf (" " ^ bit (List.length x = n &&
+                  (if ft then veqb nn (ftran_dense r (qlist a)) (qlist x) else veqb nn (btran r (qlist a)) (qlist x))))) solves;
+              Printf.printf "A %s S %s %s%s%s%s%s %s%s\n" id (bit same) (bit d1) (bit d2) (bit d3) (bit d4) (bit d5) (bit walk) (Buffer.contents buf))
+         | "topo", [ n; k ] ->
+           let n = int_of_string n and k = int_of_string k in
+           let dump = read_dump ic n in
+           let buf = Buffer.create 64 in
+           for _ = 1 to k do
+             let o = List.map (fun t -> nat_of_int (int_of_string t)) (expect ic "O") in
+             Buffer.add_string buf (" " ^ bit (listed_order_ok dump.f_uc o))
+           done;
+           Printf.printf "A %s%s\n" id (Buffer.contents buf)
+         | "lusing", [ n; stage ] ->
+           (* the report of a singular factorization: certificate X for the repaired matrix and the null rows (check_sing_report);
+              the kernel after the pivots the library made before it stopped must vanish on the reported rows x columns *)
+           let n = int_of_string n and stage = int_of_string stage in
+           let nn = nat_of_int n in
+           let sing = (match expect ic "SING" with _ns :: r ->
+                         let rec go = function rr :: cc :: t -> (nat_of_int (int_of_string cc), nat_of_int (int_of_string rr)) :: go t | [] -> [] | _ -> failwith "SING" in go r
+                       | [] -> failwith "SING") in
+           let dump = read_dump ic n in
+           let rows = List.init n (fun _ -> qlist (expect ic "R")) in
+           let cert = (match next_tokens ic with
+             | Some [ "NOX" ] -> "-"
+             | Some ("X" :: r) ->
+               let x = qlist r :: List.init (n - 1) (fun _ -> qlist (expect ic "X")) in
+               bit (check_sing_report nn rows sing x)
+             | _ -> failwith "X/NOX") in
+           let rec take m l = if m <= 0 then [] else (match l with h :: t -> h :: take (m - 1) t | [] -> []) in
+           let piv = if List.length dump.f_rperm = List.length dump.f_cperm then take stage (List.combine dump.f_rperm dump.f_cperm) else [] in
+           let (pre, ker) = (match lu_kernel nn rows piv with
+             | None -> ("N", "-")
+             | Some ((rs, cs), km) ->
+               let sr = List.map snd sing and sc = List.map fst sing in
+               let zero = q_of_string "0" in
+               let ok = List.for_all2 (fun ri krow -> (not (List.mem ri sr)) ||
+                          List.for_all2 (fun cj v -> (not (List.mem cj sc)) || qeq_bool v zero) cs krow) rs km in
+               ("S", bit ok)) in
+           Printf.printf "A %s %s %s %s\n" id cert pre ker
          | "row", [ n ] ->
            (* one equation: row . x = v, decided by the extracted mat_vec / veqb *)
            let n = int_of_string n in
